@@ -181,6 +181,10 @@ func runUnit(c *Check, ctx *Ctx, u Unit) (r *Result) {
 				r.Note("seam_unavailable", msg)
 				r.Exhaustive = false
 				r.Caps = append(r.Caps, msg+" (unit ended early)")
+			} else if f, ok := e.(ImplFault); ok {
+				// the harness could not go on because a call of the implementation failed on valid input
+				r.Violate(Violation{Check: strings.ToLower(c.ID) + ".api_error", API: f.API, Input: f.Input, Expected: "success on valid input", Got: f.Got + " (unit " + u.Name + " ended early)"})
+				r.Exhaustive = false
 			} else if implFrames(st) {
 				// the panic crossed frames of the implementation: no valid call may panic
 				r.Violate(Violation{Check: strings.ToLower(c.ID) + ".panic", API: "see stack", Input: "unit " + u.Name, Expected: "no panic", Got: fmt.Sprintf("panic: %v\n%s", e, st)})
@@ -198,6 +202,10 @@ func runUnit(c *Check, ctx *Ctx, u Unit) (r *Result) {
 	u.Run(ctx, r)
 	return r
 }
+
+// ImplFault is the panic value harness code uses when a call of the implementation returns an error (or an
+// unusable result) for valid input and the unit cannot continue: reported as a violation, not a tooling error.
+type ImplFault struct{ API, Input, Got string }
 
 // implFrames reports whether a stack trace contains frames of go-ipa itself (not of the shim).
 func implFrames(st string) bool {
